@@ -1,7 +1,9 @@
 SPECIFICATION Spec
 CONSTANTS
+  Req = {"r1", "r2"}
+  Target <- MCTarget
   MaxChanges = 3
-  BugAcceptAny = FALSE
+  Bug = ""
 INVARIANT DialSound
 PROPERTY DialLive
 CHECK_DEADLOCK FALSE
